@@ -6,7 +6,7 @@ from props import nutslib as N
 
 ID = "C14"
 LEVEL = "proof"
-COQ_HEADER = "From MiniMcmc Require Import Model.MH Model.HMC."
+COQ_HEADER = "From MiniMcmc Require Import Model.MH Model.HMC Model.NUTSEval."
 RULE = ("MH (IsotropicGaussian proposals with large jumps plus injected NaN/inf/-1e300 candidates), HMC (per-step hook) and NUTS "
         "(transition trace) on targets with bounded support or NaN regions (half-line, box, ln and sqrt of negative arguments), "
         "started inside the support, step sizes from 1e-3 to 1e30: every state returned / every position after a step is evaluated "
@@ -93,8 +93,26 @@ def run_impl(cases):
     return outs
 
 
+SEP = -1000000007
+
+
+def nuts_trs(case, out):
+    if "runs" not in out:
+        return []
+    trs = []
+    for run in out["runs"]:
+        trs += N.split_transitions(run["events"])
+    return [t for t in trs if sum(len(d["leaves"]) for d in t["doublings"]) <= 300 and not N.ambiguous(t, case["f"])]
+
+
 def coq_term(case, out):
-    """HMC accept decisions of non-finite proposals recomputed in Flocq"""
+    """every accept decision recomputed in the Flocq models: HMC rows (hmc_row_float), MH steps (mh_step), NUTS transitions
+    (Model.NUTS.transition through nuts_eval)"""
+    if case["sampler"] == "mh" and "decisions" in out:
+        return " ++ ".join("(mh_step64 0 1 %d %d %d %d %d)" % (d["lp_x"], d["lp_y"], d["lq_f"], d["lq_b"], d["lnu"]) for d in out["decisions"])
+    if case["sampler"] == "nuts":
+        trs = nuts_trs(case, out)
+        return (" ++ [%s] ++ " % C.z(SEP)).join("(%s)" % N.coq_term(t, case["f"]) for t in trs) if trs else None
     if case["sampler"] != "hmc" or "steps" not in out:
         return None
     fn = "hmc_decide32" if case["f"] == "f32" else "hmc_decide64"
@@ -108,6 +126,32 @@ def coq_term(case, out):
 
 def compare(case, out, model):
     if model is None:
+        return None
+    if case["sampler"] == "mh":
+        prev = case["init"]
+        for k, (d, m, s) in enumerate(zip(out["decisions"], model, out["states"])):
+            exp = d["cand"] if m == 1 else prev
+            if s != exp:
+                return "MH step %d: state after the step is %s, Flocq mh_step keeps %s" % (
+                    k, [bf(b) for b in s], "the candidate" if m == 1 else "the previous state")
+            prev = s
+        return None
+    if case["sampler"] == "nuts":
+        trs = nuts_trs(case, out)
+        parts, cur = [], []
+        for x in model:
+            if x == SEP:
+                parts.append(cur)
+                cur = []
+            else:
+                cur.append(x)
+        parts.append(cur)
+        if len(parts) != len(trs):
+            return "model output malformed"
+        for t, m in zip(trs, parts):
+            r = N.expected(t, case["f"], m)
+            if r:
+                return "NUTS transition m=%d: %s" % (t["start"]["m"], r)
         return None
     pos = 0
     for si, st in enumerate(out["steps"]):
@@ -197,4 +241,6 @@ def extra(cases, outs, model):
 
 def corrupt(model):
     """model output is [delta bits, mask] per row: flip every mask"""
+    if all(x in (0, 1) for x in model):          # MH: one keep/move flag per step
+        return [1 - x for x in model]
     return [1 - x if i % 2 == 1 else x for i, x in enumerate(model)]
